@@ -6,6 +6,9 @@
 //! stdin:  `<gid>\t<hex of grammar text>` per line
 //! argv:   the derive attributes, e.g. `#[box_only_if_needed] #[pest_optimizer = false]` (may be empty)
 //! stdout: `<gid>\tOK\t<token stream, one line>` or `<gid>\tPANIC\t<message>`
+//! env:    `OPTS_RUNNER_FILE_DIR=<dir>`: the grammar is written to `<dir>/<gid>.pest` and derived through
+//!         `#[grammar = "<gid>.pest"]` with `CARGO_MANIFEST_DIR=<dir>` (the `collect_data` / `include_str!` path of
+//!         generator/src/helper.rs) instead of `#[grammar_inline = …]`
 use std::io::{BufRead, Write};
 use std::str::FromStr;
 
@@ -19,6 +22,10 @@ fn unhex(s: &str) -> String {
 
 fn main() {
     let attrs = std::env::args().nth(1).unwrap_or_default();
+    let file_dir = std::env::var("OPTS_RUNNER_FILE_DIR").ok();
+    if let Some(d) = &file_dir {
+        std::env::set_var("CARGO_MANIFEST_DIR", d);
+    }
     std::panic::set_hook(Box::new(|_| {}));
     let stdin = std::io::stdin();
     let out = std::io::stdout();
@@ -28,7 +35,13 @@ fn main() {
         let mut it = line.split('\t');
         let gid = it.next().unwrap_or("").to_string();
         let text = unhex(it.next().unwrap_or("-"));
-        let src = format!("#[derive(TypedParser)]\n#[grammar_inline = {:?}]\n{}\npub struct P;", text, attrs);
+        let src = match &file_dir {
+            Some(d) => {
+                std::fs::write(std::path::Path::new(d).join(format!("{}.pest", gid)), &text).expect("cannot write the grammar file");
+                format!("#[derive(TypedParser)]\n#[grammar = {:?}]\n{}\npub struct P;", format!("{}.pest", gid), attrs)
+            }
+            None => format!("#[derive(TypedParser)]\n#[grammar_inline = {:?}]\n{}\npub struct P;", text, attrs),
+        };
         let res = std::panic::catch_unwind(move || {
             let input = proc_macro2::TokenStream::from_str(&src).expect("derive input does not lex");
             pest_typed_generator::derive_typed_parser(input, true, true).to_string()
